@@ -27,13 +27,15 @@ import itertools
 import json
 import logging
 import math
+import os
+import shutil
 import sys
 from fractions import Fraction
 
 import numpy as np
 
 from harness import tlc
-from harness.common import (MachineryError, Verdict, import_trimesh, pmap, seed,
+from harness.common import (WORK, MachineryError, Verdict, import_trimesh, pmap, seed,
                             tier_from_args)
 
 PROP = "C16"
@@ -577,6 +579,7 @@ def main(argv):
     samples = []
     bump = lambda d, k, n=1: d.__setitem__(k, d.get(k, 0) + n)
     round_size = 4000
+    scratch = "c16/run_%d" % os.getpid()      # concurrent runs (bin/try_patch) must not share shard directories
     for r0 in range(0, len(items), round_size):
         part = items[r0:r0 + round_size]
         res = pmap(run_chunk, part, chunk=max(8, min(60, len(part) // 64 + 1)))
@@ -588,7 +591,7 @@ def main(argv):
             for rec in g:
                 rec["id"] = len(cases)
                 cases.append(rec)
-        rejects, st, w = tlc.validate_batches("c16", "Hull", cases, CFG, timeout=1500)
+        rejects, st, w = tlc.validate_batches(scratch, "Hull", cases, CFG, timeout=1500)
         states += st
         wall += w
         total += len(cases)
@@ -635,6 +638,7 @@ def main(argv):
                 pick = [c for c in cases if c["kind"] == kind and not c["exc"]]
                 if pick:
                     samples.append({k: v for k, v in pick[len(pick) // 3].items() if k not in ("id", "item")})
+    shutil.rmtree(os.path.join(WORK, scratch), ignore_errors=True)
     decided = sum(v for k, v in notes.items() if "minimal_ball_decided" in k)
     if not replay:
         if kinds.get("hull", 0) < 800 or kinds.get("cyl", 0) < 100 or kinds.get("obb", 0) < 800 \
